@@ -680,7 +680,26 @@ def fixsrc_execute(case):
 # part 4: cross-section libraries - shipped fixtures mutated / regenerated, judged by the container-level reference
 
 
-def _lib_check(out, tag, lib, recs_fn, ios, ascii_leg=True, ascii_sig=None):
+def _sparse_problem(lib, kind):
+    """Structural validity of every scatter matrix of a library read back (column indices inside the matrix):
+    densifying a matrix with out-of-range indices corrupts the process heap, so this is checked first."""
+    gam = kind == "gamiso"
+    for nuc in lib.nuclides:
+        mic = nuc.gammaXS if gam else nuc.micros
+        mats = [("elasticScatter", mic.elasticScatter), ("elasticScatter1stOrder", mic.elasticScatter1stOrder),
+                ("inelasticScatter", mic.inelasticScatter), ("n2nScatter", mic.n2nScatter), ("totalScatter", mic.totalScatter)]
+        mats += [("higherOrderScatter[%s]" % k, v) for k, v in sorted(mic.higherOrderScatter.items())]
+        for name, m in mats:
+            if m is None or not hasattr(m, "check_format"):
+                continue
+            try:
+                m.check_format(full_check=True)
+            except ValueError as exc:
+                return "%s.%s: %s" % (nuc.nucLabel, name, exc)
+    return None
+
+
+def _lib_check(out, tag, lib, recs_fn, ios, ascii_leg=True, ascii_sig=None, validate=None):
     """write -> reference bytes; read -> reference re-encoding identical; re-write bytes; ASCII detour."""
     rb, wb, ra, wa = ios
     exp = [(n, ref.payload(f)) for n, f in recs_fn(lib)]
@@ -698,6 +717,9 @@ def _lib_check(out, tag, lib, recs_fn, ios, ascii_leg=True, ascii_sig=None):
                              len(exp[idx][1]) if idx < len(exp) else "-", len(frames), len(exp))):
             return False
         back = rb(p1)
+        problem = validate(back) if validate else None
+        if not out.check(problem is None, "%s/read/invalid-sparse-matrix" % tag, lambda: "container read back holds a malformed matrix: %s" % problem):
+            return False
         got = [(n, ref.payload(f)) for n, f in recs_fn(back)]
         idx, name = _first_mismatch([pl for _, pl in got], exp)
         out.check(idx is None, "%s/read/%s" % (tag, name), lambda: "record #%d (%s) re-encoded from the container read back differs from what was written" % (idx, name))
@@ -715,6 +737,12 @@ def _lib_check(out, tag, lib, recs_fn, ios, ascii_leg=True, ascii_sig=None):
             except (ValueError, BufferError, OSError) as exc:
                 out.fail(sig, "the ASCII file armi wrote cannot be read back: %s %s" % (type(exc).__name__, str(exc)[-200:]))
                 return False
+            problem = validate(aback) if validate else None
+            if not out.check(problem is None, "%s/ascii-read/invalid-sparse-matrix" % tag, lambda: "container read from ASCII holds a malformed matrix: %s" % problem):
+                return False
+            got = [(n, ref.payload(f)) for n, f in recs_fn(aback)]
+            idx, name = _first_mismatch([pl for _, pl in got], exp)
+            out.check(idx is None, "%s/ascii-read/%s" % (tag, name), lambda: "record #%d (%s) re-encoded from the container read from ASCII differs from what was written" % (idx, name))
             wb(aback, p2)
             out.check(_read(p2) == buf, sig, "binary written from the ASCII read differs from the direct binary")
         return True
@@ -772,6 +800,7 @@ def isotxs_execute(case):
         md["chi"] = np.array(fl.f32s(ng))
         out.label("file-wide-chi:added")
     mutated = nsblok > 1 or bool(case["drop_xs"]) or case["strpd"] > 0 or case["scale"] != 1.0
+    max_up = 0
     for ni, nuc in enumerate(lib.nuclides):
         nmd = nuc.gamisoMetadata if gam else nuc.isotxsMetadata
         mic = nuc.gammaXS if gam else nuc.micros
@@ -796,11 +825,36 @@ def isotxs_execute(case):
             mic.total = np.asarray(mic.total) * case["scale"]
             if mic.elasticScatter is not None:
                 mic.elasticScatter = mic.elasticScatter * case["scale"]
-    out.label("nsblok:%d" % min(nsblok, 3), "drop_xs:%d" % len(case["drop_xs"]), "strpd:%s" % (case["strpd"] > 0), "scale:%s" % case["scale"])
+        if case.get("upscatter", 0) > 0 and ni % 3 != 2:
+            # regenerate every present scattering block of this nuclide with bands reaching above the diagonal
+            # (JJ > 1: up-scatter) and below it; values float32-exact and non-zero inside the band
+            from scipy import sparse
+
+            jband, jj = dict(nmd["jband"]), dict(nmd["jj"])
+            for blk in range(nblk):
+                if nmd["ords"][blk] <= 0:
+                    continue
+                dense = np.zeros((ng, ng))
+                for g in range(ng):
+                    up = fl.i(0, min(case["upscatter"], ng - 1 - g))
+                    down = fl.i(0, min(3, g))
+                    jj[g, blk] = up + 1
+                    jband[g, blk] = up + 1 + down
+                    for col in range(g - down, g + up + 1):
+                        v = fl.f32()
+                        dense[g, col] = v if v != 0.0 else 1.0
+                    max_up = max(max_up, up)
+                xs.set_scatter_matrix(mic, nmd, blk, sparse.csr_matrix(dense))
+            nmd["jband"], nmd["jj"] = jband, jj
+            mutated = True
+    if max_up > 0:
+        md["maxUpScatterGroups"] = max(md["maxUpScatterGroups"], max_up)
+    out.label("nsblok:%d" % min(nsblok, 3), "drop_xs:%d" % len(case["drop_xs"]), "strpd:%s" % (case["strpd"] > 0), "scale:%s" % case["scale"],
+              "up-scatter:%s" % (max_up > 0))
     out.nontrivial = mutated or n < 20
     recs_fn = lambda lb: xs.isotxs_records(lb, kind)  # noqa: E731
     if nsblok == 1:
-        _lib_check(out, kind, lib, recs_fn, ios, ascii_leg=case["ascii"])
+        _lib_check(out, kind, lib, recs_fn, ios, ascii_leg=case["ascii"], validate=lambda lb: _sparse_problem(lb, kind))
         return out
     # ---- sub-blocked scattering (known shape; only with allow_known): judge writer and reader separately
     rb, wb, _ra, _wa = ios
@@ -969,6 +1023,20 @@ def compxs_execute(case):
         reg.macros.n2n = np.array(fl.f64s(ng))
         reg.metadata["powerConvMult"] = fl.f64s(ng)
         reg.metadata["d3Additive"] = fl.f64s(ng)
+    # composition chi flags: 0 = not fissile, 1 = chi vector, n > 1 = chi matrix with n columns per group
+    chi_flags = case.get("chi") or []
+    for ri, flag in enumerate(chi_flags[: len(lib.regions)]):
+        if flag is None:
+            continue
+        reg = lib.regions[ri]
+        reg.metadata["chiFlag"] = flag
+        if flag > 0:
+            reg.macros.fission = np.array(fl.f64s(ng))
+            reg.macros.nuSigF = np.array(fl.f64s(ng))
+            reg.macros.chi = np.array(fl.f64s(ng * flag)).reshape(ng, flag)
+        out.label("chi-flag:%d" % min(flag, 2))
+    if chi_flags:
+        md["numFissComps"] = sum(1 for r in lib.regions if r.metadata["chiFlag"])
     known = None
     if case["fileChi"] or case["delayed"]:
         if _excluded(case, "compxs/shape-passed-as-tuple"):
@@ -983,7 +1051,7 @@ def compxs_execute(case):
                 md["delayedChi"] = np.array(fl.f32s(ng * case["delayed"])).reshape(case["delayed"], ng)
                 md["delayedDecayConstant"] = np.array(fl.f64s(case["delayed"]))
     out.label("order:%d" % md["maxScatteringOrder"], "scale:%s" % case["scale"])
-    out.nontrivial = md["maxScatteringOrder"] != 3 or case["scale"] != 1.0
+    out.nontrivial = md["maxScatteringOrder"] != 3 or case["scale"] != 1.0 or any(f is not None for f in chi_flags)
     if known:
         try:
             _lib_check(out, "compxs", lib, xs.compxs_records, ios, ascii_leg=True)
